@@ -74,7 +74,7 @@ struct BuckOpen : pgm::BucketingPGMIndex<K, E, TLS, BITS, F> {
     BuckOpen() = default;
     size_t seg_total() const { return this->segments.size(); }
     K seg_key(size_t i) const { return this->segments[i].key; }
-    size_t chosen(K q) const { return size_t(this->segment_for_key(q) - this->segments.begin()); }
+    size_t chosen(K q) const { return size_t(&*this->segment_for_key(q) - this->segments.data()); } // iterator or pointer, whichever the library returns
     size_t table_size() const { return this->top_level.size(); }
     size_t bucket_of(K q) const {
         if constexpr (Base::pow_two_top_level) return (q - this->first_key) >> (sizeof(K) * CHAR_BIT - bit_width_of(TLS) + 1);
